@@ -19,6 +19,7 @@ def specRun : List Rx → List (Msg × Addr)
   | [] => []
   | .stop :: _ => []
   | .recvErr :: r => specRun r
+  | .sf _ :: r => specRun r
   | .dgram a d :: r =>
     let d' := d.take 1024
     if d'.length = 0 then specRun r
@@ -158,6 +159,17 @@ theorem getNextRead_spec (b : Backend) (rx : List Rx) (hl : b.buf.length = 1024)
     cases x with
     | stop => simp [getNextRead, specRun]
     | recvErr =>
+      simp only [getNextRead, specRun]
+      have := ih b hl
+      generalize getNextRead b rest = g at this ⊢
+      obtain ⟨o, b', rx'⟩ := g
+      cases o with
+      | none => simpa using this
+      | some r =>
+        simp only at this ⊢
+        obtain ⟨h1, h2, h3, h4, h5⟩ := this
+        exact ⟨h1, h2, h3, by simp [rxFuel]; omega, h5⟩
+    | sf k =>
       simp only [getNextRead, specRun]
       have := ih b hl
       generalize getNextRead b rest = g at this ⊢
